@@ -2,8 +2,14 @@
 
 package simrt
 
+import "unsafe"
+
 func handoff(to, me chan struct{}) { handoffPlain(to, me) }
 func release(c chan struct{})      { c <- struct{}{} }
 func acquire(c chan struct{})      { <-c }
+func publish(p *int)               {}
+func subscribe(p *int)             {}
+func poolAcquire(p unsafe.Pointer) {}
+func poolRelease(p unsafe.Pointer) {}
 
 const RaceEnabled = false
